@@ -18,6 +18,11 @@ def main():
         common.log(str(e))
         ok = False
 
+    try:
+        common.build("rel")
+    except common.BuildError as e:
+        common.log("optional flavor rel failed: %s" % str(e)[-400:])
+
     def nightly():
         try:
             common.build("nightly", package="svmap")
